@@ -288,6 +288,12 @@ def writer_escapes(ctx, s, nice_name, out_local_name="output", data_preds=None):
             continue
         if any(contains_value(x, lambda y: y[0] == "call" and (y[1] == ESCAPE or s.nice(y[1]) == ESCAPE)) for x in allv):
             continue
+        # the escaper's own body spliced into the writer (an escaping helper the rules do not know by name): its verbatim copy
+        # is taken only under is_safe_char, its other appends are constants or formatted escapes (judged by the escaper's rules
+        # when it is a function of its own; here: not decided unless it is the guarded verbatim copy)
+        fs_here = ctx.E.facts(fn, b)
+        if any(f[0] == "true" and isinstance(f[1], tuple) and f[1][0] == "call" and f[1][1].endswith("::is_safe_char") for f in fs_here):
+            continue
         # anything else that is appended to the JSON text is raw data - unless a scan of its bytes found only bytes that
         # json_escape would copy unchanged
         g = bulk_scan_guard(ctx, s, fn, b)
